@@ -206,6 +206,62 @@ pub fn run(cfg: &Cfg) {
     sink.oracle(PublicKey::from_spki(&der, SignatureScheme::Ed25519).is_ok(), "the repo's ed25519 fixture SPKI no longer imports", "ed25519-1.spki.der");
     spki_dec_case(&mut sink, &mut model, &der, "fixture");
 
+    // ---- PEM texts against Model/Pem.lean (the `pem` crate's reader + canonical base64)
+    let mut pem_case = |sink: &mut Sink, text: &str, class: &str| {
+        let t = text.to_string();
+        let ans = match guarded(move || pem::parse(t.as_bytes())) {
+            Err(()) => {
+                sink.oracle(false, "the PEM reader panicked", &format!("pem_dec {}", hexs(text)));
+                return;
+            }
+            Ok(Ok(p)) => format!("ok {} {}", hexs(p.tag()), hex(p.contents())),
+            Ok(Err(_)) => "none".to_string(),
+        };
+        sink.stat(&format!("pem_dec/{}/{}", class, ans.split(' ').next().unwrap()));
+        sink.op(&format!("pem_dec {}", hexs(text)), &ans, text.len() > 20);
+    };
+    for t in ["", "-----BEGIN X-----\n-----END X-----", "-----BEGIN X-----\nQQ==\n-----END X-----\n", "-----BEGIN X-----QQ==-----END X-----", "-----BEGIN X-----\nQQ=\n-----END X-----",
+        "-----BEGIN X-----\nQQ\n-----END X-----", "-----BEGIN X-----\nQR==\n-----END X-----", "-----BEGIN X-----\nQUI=\n-----END X-----", "-----BEGIN X-----\nQUJ=\n-----END X-----",
+        "-----BEGIN X-----\nQUJD\n-----END X-----", "-----BEGIN X-----\nQU JD\n-----END X-----", "-----BEGIN X-----\nQU\u{a0}JD\n-----END X-----", "-----BEGIN X-----\nQ=JD\n-----END X-----",
+        "-----BEGIN X-----\nQUJD====\n-----END X-----", "-----BEGIN X-----\nQUJDQQ==QUJD\n-----END X-----", "-----BEGIN X-----\nQUJD\n-----END Y-----", "-----BEGIN -----\nQUJD\n-----END -----",
+        "------BEGIN X-----\nQUJD\n-----END X-----", "junk -----BEGIN X-----\nQUJD\n-----END X----- trailing", "-----BEGIN X-----\nK: v\n\nQUJD\n-----END X-----", "-----BEGIN X-----\nnocolon\n\nQUJD\n-----END X-----",
+        "-----BEGIN X-----\r\nK: v\r\n\r\nQUJD\r\n-----END X-----\r\n", "-----BEGIN X-----\nQUJD\n------END X-----", "-----BEGIN X-----\nQUJD\n-----END X----", "-----BEGIN X----\nQUJD\n-----END X-----",
+        "-----BEGIN X-----\nQUJD-----END X-----", "-----BEGIN X-----\n----QUJD\n-----END X-----", "-----BEGIN X-----\nQUJ_\n-----END X-----", "-----BEGIN X-----\nQUJD\n-----END X-----\n-----BEGIN Y-----\nQQ==\n-----END Y-----",
+        "-----BEGIN \u{e9}-----\nQUJD\n-----END \u{e9}-----", "-----BEGIN X-----\n\n\nQUJD\n-----END X-----", "-----BEGIN X-----\nA: b\n\nC: d\n\nQUJD\n-----END X-----", "-----BEGIN X-----\n+/+/\n-----END X-----"] {
+        pem_case(&mut sink, t, "corpus");
+    }
+    for k in &pool {
+        if let Ok(spki) = k.public().as_spki() {
+            let written = pem::encode(&pem::Pem::new("PUBLIC KEY", spki.clone())).replace("\r\n", "\n").trim().to_string();
+            pem_case(&mut sink, &written, "written");
+            pem_case(&mut sink, &pem::encode(&pem::Pem::new("PUBLIC KEY", spki.clone())), "written-crlf");
+            for _ in 0..(if cfg.thorough { 60 } else { 12 }) {
+                let mut cs: Vec<char> = written.chars().collect();
+                let alphabet: Vec<char> = "-=+/ \n\r\tABab01:E\u{a0}\u{e9}_".chars().collect();
+                let pos = r.below(cs.len() + 1);
+                match r.below(4) {
+                    0 if pos < cs.len() => {
+                        cs.remove(pos);
+                    }
+                    1 if pos < cs.len() => cs[pos] = *r.pick(&alphabet),
+                    2 => cs.insert(pos, *r.pick(&alphabet)),
+                    _ => {
+                        // an edit close to the framing: the first or the last 40 characters
+                        let near = if r.chance(1, 2) { r.below(40.min(cs.len())) } else { cs.len() - 1 - r.below(40.min(cs.len())) };
+                        cs[near] = *r.pick(&alphabet);
+                    }
+                }
+                let t: String = cs.into_iter().collect();
+                pem_case(&mut sink, &t, "edited");
+            }
+        }
+    }
+    for _ in 0..(if cfg.thorough { 4000 } else { 400 }) {
+        // short random blocks: every padding and trailing-bit situation
+        let n = r.below(7);
+        let body: String = (0..n).map(|_| *r.pick(&['Q', 'U', 'J', 'D', 'R', 'A', '=', '=', '/', '+', 'x', '\n'])).collect();
+        pem_case(&mut sink, &format!("-----BEGIN T-----\n{}\n-----END T-----", body), "random-body");
+    }
     // ---- SHA-256 of the model against ring (lengths around the padding boundaries)
     for n in (0..200).chain([255usize, 256, 257, 1000, 4096]) {
         let b = r.bytes(n);
